@@ -100,6 +100,9 @@ pub struct Plan {
     /// do not start before the controller has opened this phase (answer-after-drop, C20)
     #[serde(default)]
     pub wait_phase: u64,
+    /// after the as_reader() calls of `ask`: do not go on (reading, answering) before this phase is open
+    #[serde(default)]
+    pub hold_phase: u64,
     pub ans: Ans,
 }
 
